@@ -228,6 +228,9 @@ func (f *File) Read(b []byte) (n int, err error) {
 }
 
 func (f *File) ReadAt(b []byte, off int64) (n int, err error) {
+	if off < 0 {
+		return 0, &os.PathError{Op: "readat", Path: f.fileData.name, Err: os.ErrInvalid}
+	}
 	prev := atomic.LoadInt64(&f.at)
 	atomic.StoreInt64(&f.at, off)
 	n, err = f.Read(b)
@@ -269,15 +272,20 @@ func (f *File) Seek(offset int64, whence int) (int64, error) {
 	if f.closed {
 		return 0, ErrFileClosed
 	}
+	abs := atomic.LoadInt64(&f.at)
 	switch whence {
 	case io.SeekStart:
-		atomic.StoreInt64(&f.at, offset)
+		abs = offset
 	case io.SeekCurrent:
-		atomic.AddInt64(&f.at, offset)
+		abs += offset
 	case io.SeekEnd:
-		atomic.StoreInt64(&f.at, int64(len(f.fileData.data))+offset)
+		abs = int64(len(f.fileData.data)) + offset
 	}
-	return f.at, nil
+	if abs < 0 {
+		return 0, &os.PathError{Op: "seek", Path: f.fileData.name, Err: os.ErrInvalid}
+	}
+	atomic.StoreInt64(&f.at, abs)
+	return abs, nil
 }
 
 func (f *File) Write(b []byte) (n int, err error) {
@@ -316,6 +324,9 @@ func (f *File) Write(b []byte) (n int, err error) {
 }
 
 func (f *File) WriteAt(b []byte, off int64) (n int, err error) {
+	if off < 0 {
+		return 0, &os.PathError{Op: "writeat", Path: f.fileData.name, Err: os.ErrInvalid}
+	}
 	prev := atomic.LoadInt64(&f.at)
 	atomic.StoreInt64(&f.at, off)
 	n, err = f.Write(b)
